@@ -150,6 +150,48 @@ pub fn run(ctx: &Ctx) -> Rep {
     rep.add("pairs.invalid_vs_invalid", acc.quad[3]);
     rep.add("pairs_comparing_Equal", acc.equal_results);
 
+    // ---- ranks converted in a hostile call context ------------------------------------------------------
+    // The table above converts the values in ascending order. Here every value is converted again right after
+    // a related predecessor (same low bits / a power of two apart / byte-swapped / itself); if that rank is not
+    // identical to the table's, it is compared against the whole table with every clause.
+    {
+        let s3 = par_run(ctx, chunks.len(), mk, |st, ci| {
+            for &a in chunks[ci] {
+                let mut preds: Vec<u16> = vec![a, !a, a.swap_bytes()];
+                for j in 0..16u32 {
+                    preds.push(a ^ (1 << j));
+                    preds.push(a.wrapping_add(1 << j));
+                    preds.push(a.wrapping_sub(1 << j));
+                }
+                for b in preds {
+                    let _ = HandRank::from(b);
+                    let x = HandRank::from(a);
+                    st.rep.evaluations += 2;
+                    st.rep.add("ranks_converted_after_a_related_predecessor", 1);
+                    let t = &ranks[a as usize];
+                    if x != *t || x.cmp(t) != Ordering::Equal {
+                        st.rep.violation(
+                            "two conversions of the same value are equal and compare Equal",
+                            "HandRank::from / cmp",
+                            Input::U16s(vec![b, a]),
+                            format!("{:?}", t),
+                            format!("{:?} when converted right after {}", x, b),
+                        );
+                        // and what that does to the order: the stale rank against every table entry
+                        let mut probe = ranks.clone();
+                        probe[a as usize] = x;
+                        for &c in &vals {
+                            check_pair(st, &probe, None, a, c);
+                            check_pair(st, &probe, None, c, a);
+                        }
+                    }
+                }
+            }
+        });
+        let (r3, _) = merge_states(s3);
+        rep.merge(r3);
+    }
+
     // ---- the enumerations: ordered strongest-first in step with the value -------
     let mut enum_pairs = 0u64;
     let names: Vec<HandRankName> = (0..=7463u16).map(|v| HandRank::determine_name(&v)).collect();
@@ -228,6 +270,12 @@ pub fn replay(_ctx: &Ctx, inp: &Input, clause: &str) -> Rep {
                         keys[t as usize] = (0..=65535u32).filter(|&c| ranks[c as usize].cmp(&ranks[t as usize]) == Ordering::Less).count() as u32;
                     }
                     check_pair(&mut st, &ranks, Some(&keys), a, b);
+                } else if clause.contains("same value") {
+                    let _ = HandRank::from(a);
+                    let x = HandRank::from(b);
+                    if x != ranks[b as usize] || x.cmp(&ranks[b as usize]) != Ordering::Equal {
+                        st.rep.violation(clause, "HandRank::from / cmp", inp.clone(), format!("{:?}", ranks[b as usize]), format!("{:?}", x));
+                    }
                 } else {
                     check_pair(&mut st, &ranks, None, a, b);
                 }
